@@ -54,8 +54,7 @@ from mc.explore import V
 from mc.harness import internal_errors
 from mc.x_c10c11_ref import (INVALID, NOT_WS, UNSPEC, VALID, DecisionModel, classify_h1, classify_h2, close_frame,
                              ws_accept_token)
-from mc.x_c10c11_run import case_execute
-from props.c10 import GuardClient
+from mc.x_c10c11_run import GuardClient, case_execute
 
 ID = "C11"
 LEVEL = "model_checking"
@@ -75,8 +74,8 @@ ASSUMPTIONS = [
     "disconnect code: with all events injected at quiescence the first closing event decides; under mid-flight "
     "injection any fired closing event's code is accepted",
 ]
-BOUNDS_DOC = {"quick": "hs1/hs2 full products; decision sequences depth<=3 sends; race M<=1,S<=2",
-              "thorough": "hs1/hs2 full products; decision sequences depth<=4 sends; race M<=2,S<=3, trio R<=1"}
+BOUNDS_DOC = {"quick": "hs1/hs2/off full products; decision sequences depth<=3 sends; race M<=1,S<=2",
+              "thorough": "hs1/hs2/off full products; decision sequences depth<=5 sends; race M<=2,S<=3, trio R<=1"}
 BUDGET = {"quick": 150, "thorough": 1500}
 
 ENGINES = ("asyncio", "trio")
@@ -384,7 +383,7 @@ def scenarios(tier: str) -> List[Any]:
             for c in range(len(CON)):
                 out.append(("hs1", e, u, c))
         out.append(("hs2", e))
-        seqs = sequences(3 if tier == "quick" else 4)
+        seqs = sequences(3 if tier == "quick" else 5)
         for carrier in ("ws/h1", "ws/h2"):
             for offer in OFFERS:
                 for seq in seqs:
